@@ -15,7 +15,13 @@ RULE = ("every run starts with fixed vectors: the witness (100, 90, generate, 11
         "`gen`, 30 % `peek` on a clone) and 1-3 at the end, over Daily / Annual252 / Annual365 / TimeDelta intervals (10 % exotic: non-whole seconds, sub-second, "
         "negative); 5 % of the cases end with an op on which the code panics (zero entry price, zero quantity, unknown instrument / asset index). Thorough "
         "additionally enumerates, on both paths, every sequence of length <= 4 over {four balance levels at the next time, one level at a stale time, a summary "
-        "request} for one asset (2 x 1 554 cases) and over {totals 0, -5, 10, 5 at the next time, a summary request} (2 x 780 cases). A case is distinct by the SHA-1 of its op lines and non-trivial when the implementation's observation block "
+        "request} for one asset (2 x 1 554 cases) and over {totals 0, -5, 10, 5 at the next time, a summary request} (2 x 780 cases). After the random cases a separately seeded input-domain family (`d..`, N/8 cases, six classes cycled; the random cases are unchanged by it): "
+        "(0) engine round trips with SIGNED fees (maker rebates on the opening and / or closing fill; flips with a rebate on the opening fill, the flipping fill stays free of fees), "
+        "(1) 60-100 (thorough -150) closed positions on one instrument on either path with a request every 25 events, (2) odd balances on both paths (free > total, free < 0, zero totals, "
+        "negative and far exchange times, first snapshot at a negative time, equal / stale ones after), (3) full account snapshots WITHOUT balances and with the same asset two to four times "
+        "(equal, rising, falling times inside one snapshot), (4) negative entry price / negative size / both on the direct path, the same record on two instruments, "
+        "(5) 0 instruments (requests on an empty summary) or 4-5 instruments. corpus/C16K/domain.ops holds one hand-made case per class. "
+        "A case is distinct by the SHA-1 of its op lines and non-trivial when the implementation's observation block "
         "changes at least once")
 ASSUMPTIONS = [
     "COMPOSITION of existing models, nothing re-modelled: per instrument the full TearSheetGenerator of sub-check C16M (Metrics.Gen: clock, PnLReturns with the C17 DataSetSummary, the C18 drawdown generators, generate with all ten fields), per asset balance_now + the C18 Drawdown.Sheet, on the engine path behind the C09 register guard (Stale.passes false / Stale.upd false); their own assumptions carry over (props/C16.py, C16M.py, C17.py, C18.py, C09.py)",
